@@ -391,6 +391,95 @@ pub fn cycle_reachable(c: &ColrCase, root: usize) -> bool {
     false
 }
 
+/// Upper bound on the number of paint-node visits skrifa's traversal can make from `root` (stops counting at `cap`).
+/// Mirrors the traversal's shape: depth cut at 64, the cycle guard on layer and colour-glyph hops (path-wise), every child
+/// of a layer range / composite visited, and the child of a PaintGlyph visited TWICE (the speculative fill-glyph pass plus
+/// the regular pass when the speculation fails). Errors only cut walks short, so the real number is never larger.
+/// Graphs whose bound exceeds the cap are formally bounded but astronomically long walks (DESIGN.md C13-L): they are
+/// left out of the generated stage by construction and counted.
+pub fn walk_upper_bound(c: &ColrCase, root: usize, cap: u64) -> u64 {
+    let n = c.nodes.len();
+    if n == 0 {
+        return 0;
+    }
+    let mut roots = c.roots.clone();
+    roots.sort();
+    roots.dedup_by_key(|r| r.0);
+    // returns (ok, clean): ok = false when the modelled traversal ends in an error (cycle / depth), which ends the whole walk
+    // as in skrifa; clean = only transform and fill callbacks were emitted (what the speculative fill-glyph pass tolerates)
+    fn go(c: &ColrCase, roots: &[(u16, u8)], i: usize, depth: usize, guarded: &mut Vec<usize>, visits: &mut u64, cap: u64) -> (bool, bool) {
+        if *visits > cap || depth >= 64 {
+            return (false, true);
+        }
+        *visits += 1;
+        let n = c.nodes.len();
+        match &c.nodes[i] {
+            Node::Layers { first, count, wild } => {
+                let ch: Vec<usize> = if *wild {
+                    (*first as usize..(*first as usize + *count as usize)).filter(|x| *x < n).collect()
+                } else {
+                    let f = *first as usize % n;
+                    let k = (*count % 4).min((n - f) as u8) as usize;
+                    (f..f + k).collect()
+                };
+                let mut clean = true;
+                for x in ch {
+                    if guarded.contains(&x) || guarded.len() >= 64 {
+                        return (false, clean);
+                    }
+                    guarded.push(x);
+                    let (ok, cl) = go(c, roots, x, depth + 1, guarded, visits, cap);
+                    guarded.pop();
+                    clean &= cl;
+                    if !ok {
+                        return (false, clean);
+                    }
+                }
+                (true, clean)
+            }
+            Node::Glyph { child, .. } => {
+                // speculative fill-glyph pass; the regular pass follows when the speculation saw a clip or layer callback.
+                // Either way the node itself emits fill_glyph / push_clip_glyph to its parent: not clean.
+                let (ok, clean) = go(c, roots, *child as usize % n, depth + 1, guarded, visits, cap);
+                if clean {
+                    return (ok, false);
+                }
+                let (ok2, _) = go(c, roots, *child as usize % n, depth + 1, guarded, visits, cap);
+                (ok && ok2, false)
+            }
+            Node::Xform { child, .. } => go(c, roots, *child as usize % n, depth + 1, guarded, visits, cap),
+            Node::Composite { src, backdrop, .. } => {
+                let (ok, _) = go(c, roots, *backdrop as usize % n, depth + 1, guarded, visits, cap);
+                if !ok {
+                    return (false, false);
+                }
+                (go(c, roots, *src as usize % n, depth + 1, guarded, visits, cap).0, false)
+            }
+            Node::ColrGlyph { gid } => {
+                // (a cached / failing paint_cached_color_glyph answer only shortens the walk; a clip box may be pushed: not clean)
+                for r in roots.iter().filter(|r| r.0 == *gid) {
+                    let x = n + r.1 as usize % n; // guard key space of base-glyph paints, distinct from layers
+                    if guarded.contains(&x) || guarded.len() >= 64 {
+                        return (false, false);
+                    }
+                    guarded.push(x);
+                    let (ok, _) = go(c, roots, r.1 as usize % n, depth + 1, guarded, visits, cap);
+                    guarded.pop();
+                    if !ok {
+                        return (false, false);
+                    }
+                }
+                (true, false)
+            }
+            _ => (true, true),
+        }
+    }
+    let mut visits = 0u64;
+    let mut guarded = vec![n + root % n];
+    go(c, &roots, root % n, 0, &mut guarded, &mut visits, cap);
+    visits
+}
+
 // ---------------------------------------------------------------------------------------------
 // recording painter
 
